@@ -11,6 +11,11 @@ NOTE = ("Trusted: Lean 4.33 kernel + axioms propext/Classical.choice/Quot.sound 
         "(real code vs compiled model on the same cases); CPython/stdlib semantics re-expressed in the model. ")
 
 CHECKS = {
+    "C16": dict(
+        text="Theorems on the Lean models of TestcaseJsStr / TestcaseAttrs.split_parts: C16_js_partition (header ++ parts ++ footer = data, one flag per part), C16_js_token_progress (the escape grammar consumes 1..len bytes), C16_attrs_partition (parts partition the data, are non-empty, one flag each; never raises) — with step_inv / loop_inv over the two-state loop and scan/outer/mergeLoop lemmas. The exactness clauses (reducible JS atoms = characters and complete escapes of terminated strings; every reducible attribute atom is one complete attribute inside a tag) are decided by the monitor against an independent hand-written reference tokenizer / structural specification on every string up to length 5/6 over adversarial alphabets plus grammar-directed and marker-bearing streams; the models are tied to the code field by field on the same inputs.",
+        note=NOTE + "Partial: exactness vs the reference tokenizer / attribute shape is monitor + correspondence, not a theorem.",
+        technique="Lean 4 proof (partition invariants of the splitter state machines) + exhaustive short-string correspondence + reference tokenizer",
+        ref="§4 C16"),
     "C05": dict(
         text="Theorems C05_load_frame (for every splitter without header/footer: before = lines through the DDBEGIN line, after = lines from the DDEND line), C05_char_byte (char mode moves the last region byte, unchanged, in front of the suffix), C05_content_frame, C05_frame_minimize and C05_frame_pairs (every proposal and the final best of minimize / minimize-around / minimize-balanced keep before and after, for every test, clock and option setting). Tied to the code by loaders + all 7 strategies (+move) x 5 splitters on marker files with every terminator style; the monitor compares prefix/suffix (and the byte before DDEND in char mode) of every file presented to the test.",
         note=NOTE + "Brace collapsing (re-load of the collapsed text), the two rewriting strategies and the experimental move: monitored on the real code, not proved.",
@@ -77,8 +82,8 @@ CHECKS = {
         technique="Lean 4 proof (Log invariant incl. tried-set = contents tested) + differential execution of the real driver",
         ref="§4 C12"),
     "C06": dict(
-        text="Theorems C06_roundtrip_{line,char,symbol} (every byte string: a successful load writes back the same bytes, atoms non-empty, one flag per atom), C06_no_internal_error, C06_lines_flatten; JS-string/attribute splitters: see level_note. Tied to testcases.py by differential execution of load() vs the model on every concatenation of <= 3/4 entries of a 24-entry adversarial alphabet x splitters plus random strings; monitor (dump-and-compare, also through a re-used object) on all five splitters.",
-        note=NOTE + "JS-string and attribute splitters are covered by theorems only once their models exist (C16); until then their round trip rests on the monitor.",
+        text="Theorems C06_roundtrip_{line,char,symbol} (every byte string: a successful load writes back the same bytes, atoms non-empty, one flag per atom), C06_no_internal_error, C06_lines_flatten; C06_roundtrip_attrs, C06_roundtrip_jsstr_partial (bytes and flags; non-empty atoms of the JS splitter: monitor). Tied to testcases.py by differential execution of load() vs the model on every concatenation of <= 3/4 entries of a 24-entry adversarial alphabet x splitters plus random strings; monitor (dump-and-compare, also through a re-used object) on all five splitters.",
+        note=NOTE + "Non-emptiness of JS-string atoms is checked by the monitor only.",
         technique="Lean 4 proof (generic load round-trip lemma over any splitter meeting SplitOK, instantiated per splitter) + exhaustive short-string correspondence",
         ref="§4 C06"),
     "C08": dict(
